@@ -10,7 +10,7 @@ LEVEL = 'exploration'
 RULE = (
     'Hypothesis-generated operation histories (content pool of <= 5 contents so that >= 50% of the writes repeat a known '
     'content, within one batch, across batches and across loose/packed forms; all of compress/no_holes/no_holes_read_twice; '
-    'compound rule "damage the loose copy then re-add its content") interpreted on the real container next to a dict model; '
+    'compound rule "damage the loose copy (size-changing or same-size corruption, objects up to 600 kB) then re-add its content") interpreted on the real container next to a dict model; '
     'oracle after every step: returned key == digest, <= 1 index row and <= 1 loose file per key, stored objects == distinct '
     'contents, every key reads back; for a no_holes call: unreferenced bytes per pack do not increase and packs grow by exactly '
     'the stored length of previously unknown contents. Non-trivial = history containing a no_holes call with a repeat of packed '
@@ -39,7 +39,7 @@ WEIGHTS = {
 
 
 def strategy():
-    return gen.history_case(WEIGHTS, min_ops=2, max_ops=25, max_size=70000, boundary_weight=1, pool_max=5)
+    return gen.history_case(WEIGHTS, min_ops=2, max_ops=25, max_size=600000, boundary_weight=1, pool_max=5)
 
 
 def checkers():
